@@ -21,13 +21,14 @@ type parserFlow struct {
 	unresolved  []ssa.CallInstruction
 	mayConsume  map[*ssa.Function]bool // may reach NEXT other than through PEEK
 	errFuncs    map[*ssa.Function]bool // always record an error (or return immediately because one is recorded)
+	consumer    map[*ssa.Function]bool // helper every return of which is dominated by a consumption (true entries are final; false marks in-progress)
 	consumePred map[*ssa.Function]int  // function -> index of the bool result that is true only after a consumption
 	entryGuard  map[*ssa.Function]int  // function -> index of the bool result that is false when p.err != nil at entry
 }
 
 func newParserFlow(m *parserModel) *parserFlow {
 	f := &parserFlow{m: m, p: m.p, calleesOf: map[ssa.CallInstruction][]*ssa.Function{}, mayConsume: map[*ssa.Function]bool{},
-		errFuncs: map[*ssa.Function]bool{}, consumePred: map[*ssa.Function]int{}, entryGuard: map[*ssa.Function]int{}}
+		errFuncs: map[*ssa.Function]bool{}, consumePred: map[*ssa.Function]int{}, consumer: map[*ssa.Function]bool{}, entryGuard: map[*ssa.Function]int{}}
 	f.resolveCalls()
 	f.computeMayConsume()
 	f.computeErrFuncs()
@@ -90,8 +91,28 @@ func (f *parserFlow) resolveCalls() {
 	}
 }
 
+// discardsLookahead: in stores false into parser.peeked — the look-ahead token is dropped, so the next peek reads on.
+func (f *parserFlow) discardsLookahead(in ssa.Instruction) bool {
+	st, ok := in.(*ssa.Store)
+	if !ok || !f.m.fieldAddr(st.Addr, "peeked") {
+		return false
+	}
+	cst, ok := st.Val.(*ssa.Const)
+	return ok && cst.Value != nil && cst.Value.String() == "false"
+}
+
 func (f *parserFlow) computeMayConsume() {
 	f.mayConsume[f.m.next] = true
+	for _, fn := range f.m.fns {
+		if fn == f.m.peek {
+			continue
+		}
+		allInstrs(fn, func(in ssa.Instruction) {
+			if f.discardsLookahead(in) {
+				f.mayConsume[fn] = true
+			}
+		})
+	}
 	for changed := true; changed; {
 		changed = false
 		for _, fn := range f.m.fns {
@@ -272,7 +293,10 @@ func (f *parserFlow) dominatedByConsumption(in ssa.Instruction) bool {
 		if found {
 			return
 		}
-		if ci, ok := x.(ssa.CallInstruction); ok && ci.Common().StaticCallee() == f.m.next && dominatesInstr(x, in) {
+		if ci, ok := x.(ssa.CallInstruction); ok && f.alwaysConsumes(ci.Common().StaticCallee()) && dominatesInstr(x, in) {
+			found = true
+		}
+		if f.discardsLookahead(x) && dominatesInstr(x, in) {
 			found = true
 		}
 	})
@@ -285,6 +309,36 @@ func (f *parserFlow) dominatedByConsumption(in ssa.Instruction) bool {
 		}
 	}
 	return false
+}
+
+// alwaysConsumes: g is the advance function, or a helper every return of which is dominated by a consumption.
+func (f *parserFlow) alwaysConsumes(g *ssa.Function) bool {
+	if g == nil {
+		return false
+	}
+	if g == f.m.next {
+		return true
+	}
+	if v, ok := f.consumer[g]; ok {
+		return v
+	}
+	f.consumer[g] = false // recursion: assume not
+	if !inParserPkg(f.m, g) || len(g.Blocks) == 0 || g == f.m.peek {
+		return false
+	}
+	rets := returnsOf(g)
+	all := len(rets) > 0
+	for _, ret := range rets {
+		if !f.dominatedByConsumption(ret) {
+			all = false
+		}
+	}
+	if all {
+		f.consumer[g] = true
+	} else {
+		delete(f.consumer, g)
+	}
+	return all
 }
 
 // isConsumePredResult: v is the bool result of a call to a consuming predicate.
